@@ -10,10 +10,16 @@ SPEC = {
     ],
     "floors": {
         "quick": {"hist_single_delta_reader_fastpath": 300, "hist_multi_reader_mixed": 300, "hist_second_handle": 300,
-                  "hist_second_view_stream": 300, "conc_runs_collect_overlapped_ge10_adds": 50},
+                  "hist_second_view_stream": 300, "conc_runs_collect_overlapped_ge10_adds": 50,
+                  "hist_starved_reader": 200, "starved_reader_delta_points_checked": 300,
+                  "starved_reader_cumulative_points_checked": 300,
+                  "hist_same_name_different_unit": 250, "hist_same_name_different_description": 120},
         "thorough": {"hist_single_delta_reader_fastpath": 15000, "hist_multi_reader_mixed": 15000,
                      "hist_second_handle": 15000, "hist_second_view_stream": 15000,
-                     "conc_runs_collect_overlapped_ge10_adds": 5000},
+                     "conc_runs_collect_overlapped_ge10_adds": 5000,
+                     "hist_starved_reader": 10000, "starved_reader_delta_points_checked": 15000,
+                     "starved_reader_cumulative_points_checked": 15000,
+                     "hist_same_name_different_unit": 12000, "hist_same_name_different_description": 6000},
     },
     "engine": "E1 model-oracle",
     "engines_used": ("E1 model-oracle", "E2 history"),
@@ -24,13 +30,18 @@ SPEC = {
                    "attribute sets in random key order, handle destruction and Collect by 1..4 pull readers of mixed "
                    "temporality over 0..3 views and 1..3 meters; every collection is compared point by point with the "
                    "model (delta = everything since that reader's cursor, cumulative = everything since start, delta "
-                   "intervals abut, cumulative intervals start at the single SDK start). Concurrent variant: recorder "
+                   "intervals abut, cumulative intervals start at the single SDK start); collected MetricData are matched to model "
+                   "streams by scope and by name, unit and description of their instrument descriptor. Every ~8th history is "
+                   "directed: one reader collects 34..60 times in a row with Adds in between while the other readers do not "
+                   "collect, then they do; three in ten hold two different instruments with the same name in one meter "
+                   "(different unit, or different description). Concurrent variant: recorder "
                    "threads race one collector thread per reader; conservation after a final quiescent collect plus an "
                    "in-flight bound on every running total. Right level because the property quantifies over histories, "
                    "configurations and schedules of a stateful pipeline and a small model decides every collection."),
     "level_note": ("trusts the model in vf/include/vf_metrics_model.h and harness/c06_counter_conservation.cc, gcc "
-                   "ASan/UBSan/TSan; covers only generated histories (<=200 steps, <=4 instruments, <=6 attribute sets, "
-                   "<=4 readers, <=3 views, <=3 meters) and the schedules the perturbed threads produced; per-interval "
+                   "ASan/UBSan/TSan; covers only generated histories (<=200 steps, <=5 instruments, <=6 attribute sets, "
+                   "<=4 readers, <=3 views, <=3 meters, a reader lags at most 60 collections behind another; same-name "
+                   "pairs only sequentially) and the schedules the perturbed threads produced; per-interval "
                    "attribution is only checked sequentially. Mutation self-test (scratch worktree, on top of the three "
                    "proposed fixes): 10/10 breaking edits exit 1 - unreported lists cleared for every collector, Merge "
                    "replaced by overwrite, delta map swapped outside the lock (TSan + lost updates), cumulative restarted "
@@ -41,7 +52,16 @@ SPEC = {
              "meters, 0..3 views: rename / allow-list filter / second stream for one instrument, 1..4 instruments "
              "Counter|UpDownCounter x uint64/int64|double, pool of 1..6 attribute maps) and a history of 3..200 steps over "
              "{create, create the same instrument again, Add(value, attrs) through any live handle and any Add overload, "
-             "destroy a handle, Collect(reader)}, followed by one collection per reader. Values: integers below 2^40; "
+             "destroy a handle, Collect(reader)}, followed by one collection per reader. Decided by the case seed: one case "
+             "in eight is a starved-reader history (>=2 readers; 3..25 random steps; then one reader collects 34..60 times in "
+             "a row, 1..3 Adds - one gap in ten none - before each collection, while the others - marked starved in the "
+             "configuration - do not collect; then each starved reader collects; then 0..20 random steps; "
+             "hist_starved_reader counts those in which a starved reader's collection after the burst judged a set recorded "
+             "during the burst); three cases in ten add to the configuration a different instrument with the name, meter, "
+             "type and value type of one of the others but another unit (2 in 10) or another description (1 in 10): the "
+             "pair is created first, in either order, and every view that selects one by name selects both "
+             "(hist_same_name_different_unit/_description count the histories in which both recorded and a collection "
+             "followed). Values: integers below 2^40; "
              "doubles that are multiples of 2^-10 below 2^30 (exact sums); a separate class of arbitrary doubles compared "
              "with 1e-9 relative to the sum of magnitudes. Non-trivial = at least one Add followed by a Collect; distinct = "
              "hash of the operation/argument sequence. Concurrent case = 1..4 recorder threads x 40..600 planned Adds "
@@ -54,5 +74,6 @@ SPEC = {
         "a delta reader that receives no point for a set whose interval sum is zero is accepted; a zero-valued point for a set that was never recorded is don't-care",
         "SDK start is the single value observed in start_ts, bracketed by harness clock reads around the MeterContext constructor; system_clock is assumed not to step backwards during a case",
         "attribute keys and instrument names are handed over NUL-terminated (the allow-list lookup and the name validator read data() as a C string: that is C08/C19's finding), attribute string values are exact-size unterminated buffers scribbled or freed after the call",
-        "the violation class comes from the configuration: second-handle / second-view-stream (/both) when the instrument has them, otherwise single-reader-fastpath | single-reader-cumulative | multi-reader-delta | multi-reader-cumulative"],
+        "the violation class comes from the configuration: same-name-different-unit | same-name-different-description when the instrument is one of a same-name pair of which both have been created, else second-handle / second-view-stream (/both) when the instrument has them, otherwise single-reader-fastpath | single-reader-cumulative | multi-reader-delta | multi-reader-cumulative; ':starved-reader' is appended for the readers that the configuration of a starved-reader history keeps from collecting during the burst",
+        "instrument identity is (meter, name, unit, description, type, value type): Create with an identical descriptor is 'the same instrument again' (another handle), a descriptor that differs in the unit or in the description is a different instrument whose measurements form their own streams; a MetricData belongs to the model stream with the same scope and the same name_, unit_ and description_ in its instrument_descriptor (no view of this harness sets a description)"],
 }
